@@ -207,7 +207,7 @@ func indexOps(n, lo, hi int) []op {
 		for j := lo; j <= n+hi; j++ {
 			for _, m := range rangeMethods {
 				if m == "Replace" || m == "ReplaceE" {
-					for _, v := range valsChoices[:3] {
+					for _, v := range valsChoices[(i+j+4)%2 : (i+j+4)%2+2] {
 						ops = append(ops, op{Name: m, I: i, J: j, Vals: v})
 					}
 				} else {
@@ -329,7 +329,7 @@ func main() {
 	nextW := func() int { wsel++; return wsel % 8 }
 
 	// ---- exh: bounded exhaustive single calls, contents over {0,1,2} ----
-	maxVal, maxIdx := 3, 2
+	maxVal, maxIdx := 3, 1
 	if o.Thorough() {
 		maxVal, maxIdx = 4, 4
 	}
@@ -399,6 +399,42 @@ func main() {
 		}
 	}
 
+	// ---- detach: a slice is handed over (the one the wrapper was built from, a ToMetaSlice / CopyToSlice result), then a
+	// method that rebinds or resets the receiver (Clear, Filter, Unmarshal), then methods that write: what was handed over
+	// before must not be reached through the receiver any more (re-read after every call, see o_ret) ----
+	resetters := []op{{Name: "Clear"}, {Name: "Filter", Fn: "p_false"}, {Name: "Filter", Fn: "p_even"}, {Name: "Filter", Fn: "p_true"},
+		{Name: "Unmarshal", Data: "[]"}, {Name: "Unmarshal", Data: "[4]"}, {Name: "DeleteE", I: 0, J: 1}, {Name: "Clip"}}
+	writers := [][]op{
+		{{Name: "Append", Vals: []int{5, 6}}},
+		{{Name: "InsertE", I: 0, Vals: []int{7}}},
+		{{Name: "Unmarshal", Data: "[4,5]"}},
+		{{Name: "Unmarshal", Data: "[4,5,6,7,8,9,10,11,12,13,14,15,16,17,18,19,20]"}},
+		{{Name: "ReplaceE", I: 0, J: 0, Vals: []int{8, 9}}},
+		{{Name: "SetByRangeE", I: 0, Vals: []int{9}}},
+		{{Name: "Grow", I: 2}, {Name: "Append", Vals: []int{3}}, {Name: "Cap"}},
+		{{Name: "Append", Vals: []int{9, 8}}, {Name: "Insert", I: 0, Vals: []int{7}}, {Name: "Reverse"}},
+	}
+	for k, c := range familyContents {
+		if k%3 != 1 && !o.Thorough() {
+			continue
+		}
+		for ri, rs := range resetters {
+			for wi, ws := range writers {
+				first := op{Name: "ToMetaSlice"}
+				if (k+ri+wi)%3 == 1 {
+					first = op{Name: "CopyToSlice"}
+				} else if (k+ri+wi)%3 == 2 {
+					first = op{Name: "GetByRange", I: 0, J: len(c)}
+				}
+				ops := append([]op{first, rs}, ws...)
+				runCase(w, "detach", (ri+wi)%2, c, ops)
+				if (ri+wi)%4 == 0 {
+					runCase(w, "detach", 2+(k+ri+wi)%6, c, ops)
+				}
+			}
+		}
+	}
+
 	// ---- rand: profiled contents, malformed indexes ----
 	nr := 2000
 	if o.Thorough() {
@@ -430,11 +466,13 @@ func main() {
 		runCase(w, "seq", nextW(), c, ops)
 	}
 
+	genRecs(w, rng, o.Thorough())
 	genBMap(w, rng, o.Thorough())
 
 	w.Close(o, "bslice: one case = one logical content (ints), 3 capacity variants (clipped, cap=len+1, cap=2*len+8; for the empty content also the nil slice), "+
 		"a sequence of 1..5 method calls executed on the real wrappers; every call records panic/error/result/receiver window/array identity/alias probe per variant. "+
-		"exh = every method x every argument in [-1,len+1] x contents over {0,1,2} (quick: value-driven methods on all contents of length<=3, index-driven methods on all contents of length<=2 and two per longer length; thorough: all of length<=4); "+
-		"wrap = every method through each of the 8 wrappers on a family of contents (single, all negative, all equal, mixed signs, large magnitudes, empty); exh-neg = order/magnitude methods on all contents of length<=3 over {-3,-1,7} through the unsafe and safe wrapper of the defining flavour; stable = stable sorts on 13..62 elements with equal keys; rand = profiled contents up to length 40 with indexes in [-2,n+2]; seq = sequences of 2..5 calls. "+
+		"exh = every method x every argument in [-1,len+1] x contents over {0,1,2} (quick: value-driven methods on all contents of length<=3, index-driven methods on all contents of length<=1 and two per longer length; thorough: all of length<=4); "+
+		"wrap = every method through each of the 8 wrappers on a family of contents (single, all negative, all equal, mixed signs, large magnitudes, empty); exh-neg = order/magnitude methods on all contents of length<=3 over {-3,-1,7} through the unsafe and safe wrapper of the defining flavour; stable = stable sorts on 13..62 elements with equal keys; detach = hand a slice over, reset/rebind the receiver (Clear, Filter, Unmarshal, Delete, Clip), then write through it; every slice handed over (constructor argument, every returned slice) is re-read after every later call of the case; rand = profiled contents up to length 40 with indexes in [-2,n+2]; seq = sequences of 2..5 calls. "+
+		"recs = element type struct{ID; Name omitempty} (shown as ID*16+nameIndex): shrink/reset the receiver (Clear, Delete, Filter, Replace, Compact, Clip ...), then Unmarshal JSON objects that omit fields, on Unsafe/SafeAny; "+
 		"bmap: sequences of 1..6 calls on the 4 wrappers from nil/empty/populated maps. distinct = distinct case terms; non-trivial = non-empty content or a call with a non-empty argument (bslice), non-empty initial map or more than one call (bmap)")
 }
